@@ -35,8 +35,7 @@ def dow_of(d):
     return (d + 3) % 7 + 1
 
 
-def all_rules(rng=None):
-    """Every rule the factories hand out.  The factories are called in a seeded order (which rule is asked for first must not matter)."""
+def rule_makers():
     from pyoda_time import IsoDayOfWeek
     from pyoda_time.calendars import CalendarWeekRule, WeekYearRules
     makers = [("iso", lambda: WeekYearRules.iso, False, 4, 1)]
@@ -46,6 +45,14 @@ def all_rules(rng=None):
     for r in CalendarWeekRule:
         for f in range(1, 8):
             makers.append((f"bcl-{r.name}-first{f}", (lambda r=r, f=f: WeekYearRules.from_calendar_week_rule(r, IsoDayOfWeek(f))), True, r.name, f))
+    return makers
+
+
+def all_rules(rng=None):
+    """Every rule the factories hand out.  The factories are called in a seeded order (which rule is asked for first must not matter)."""
+    from pyoda_time import IsoDayOfWeek
+    from pyoda_time.calendars import CalendarWeekRule, WeekYearRules
+    makers = rule_makers()
     order = list(range(len(makers)))
     if rng is not None:
         how = rng.randrange(3)
@@ -309,6 +316,11 @@ def run_rules(ctx, cid, n_years):
     ctx.counters.setdefault("iso_vs_stdlib", 0); ctx.counters.setdefault("nth_weekday", 0)
 
 
+def lo_hi_ok(gen, cid, d):
+    lo, hi = gen.cal_range(cid)
+    return lo <= d - 6 and d <= hi
+
+
 def sign(v):
     return (v > 0) - (v < 0)
 
@@ -405,6 +417,42 @@ def run_mixed(ctx, n_years):
                         ic = _dt.date.fromordinal(d + UNIX).isocalendar()
                         if got != (ic[0], ic[1]):
                             ctx.V("C16:iso-vs-isocalendar", f"{x!r}: ISO rule object (shared between calendars) gives {got}; date.isocalendar() gives {tuple(ic)[:2]}", case, got, tuple(ic)[:2])
+    # The same call with the same week-year number made back to back in several calendars on one held rule object (in the block
+    # above every calendar switch is followed by a query for a *different* week-year, which would step over a one-entry memo);
+    # each answer against a rule object made for that one call, and week 1 against the week-1 model.
+    mk = {n_: f_ for n_, f_, *_ in rule_makers()}; cid_of = {id(c_): k_ for k_, c_ in cals.items()}
+    for _ in range(n_years * 2):
+        y = rng.randint(1500, 3000)
+        name, rule, irregular, m, f = rules[0] if rng.random() < 0.15 else rng.choice(rules[1:])
+        dow = IsoDayOfWeek(rng.randint(1, 7)); wk_no = rng.choice([1, 1, 2, 30, 52])
+        calls = [("get_local_date", lambda r_, c_: r_.get_local_date(y, wk_no, dow, c_)),
+                 ("get_weeks_in_week_year", lambda r_, c_: r_.get_weeks_in_week_year(y, c_)),
+                 ("get_week_year(jan-1)", lambda r_, c_: (r_.get_week_year(gen.date_of(ys[cid_of[id(c_)]].start(y) + 10, c_)), r_.get_week_of_week_year(gen.date_of(ys[cid_of[id(c_)]].start(y) + 10, c_))))]
+        rng.shuffle(calls)
+        for cname, call in calls:
+            for cid in rng.sample(cids, len(cids)):
+                cal = cals[cid]
+                if not cal.min_year + 1 <= y <= cal.max_year - 1: continue
+                case = {"kind": "mixed", "cal": cid, "rule": name, "d": ys[cid].start(y)}
+                ctx.ev(); ctx.count("rule_evals"); ctx.count("same_call_across_calendars"); ctx.key(("mixed-same-call", cname, cid))
+                def outcome(r_):
+                    try:
+                        return call(r_, cal)
+                    except (ValueError, OverflowError) as e:      # e.g. week 52 of a 354-day year: refused, the same way by both
+                        ctx.exc(e); return ("raised", type(e).__name__, str(e))
+                try:
+                    got = outcome(rule); ref = outcome(mk[name]())
+                except Exception as e:  # noqa: BLE001
+                    ctx.exc(e); ctx.V(f"C16:mixed-calendar-raised:{type(e).__name__}", f"{cid} year {y} rule {name} {cname} (rule object shared between calendars): raised {e!r}", case, repr(e)); continue
+                bad = got != ref
+                if not bad and cname == "get_local_date" and not irregular and wk_no == 1:
+                    w1 = week1_start(ys[cid], y, m, f)
+                    exp = gen.date_of(w1 + (dow.value - f) % 7, cal) if lo_hi_ok(gen, cid, w1 + 6) else None
+                    bad = exp is not None and got != exp
+                    ref = (ref, exp)
+                if bad:
+                    ctx.V("C16:rule-depends-on-previous-calendar", f"{cid} year {y} rule {name}: {cname} on a rule object just asked the same for another calendar gives {got!r}; "
+                          f"a rule object made for this call (and the week-1 model) gives {ref!r}", case, repr(got), repr(ref))
     ctx.sample({"kind": "mixed", "calendars": cids})
     for k in ("iso_vs_stdlib", "navigation", "nth_weekday"):
         ctx.counters.setdefault(k, 0)
